@@ -837,3 +837,50 @@ def mirrored_blocks(rng, n=None):
                                 random_seed=_seed(rng), discrete_genome=True)
     return mts, dict(gen="mirrored_blocks", n=n, L=2 * L0, trees=mts.num_trees, muts=mts.num_mutations, Ne=100.0,
                      mu=5.0 / max(ts.segregating_sites(mode="branch", span_normalise=False), 1e-300))
+
+
+def unary_chain(rng):
+    """Two trees; in one of them a chain of unary nodes hangs between a clade and a unary root that is a
+    coalescent node in the other tree (the span tables then lend that node's spans to the chain: the
+    second pass of SpansBySamples). Needs allow_unary=True."""
+    n = int(rng.integers(4, 9))
+    a = int(rng.integers(2, n - 1))            # clade of A in the coalescent tree
+    b = int(rng.integers(1, n - a))            # samples joining at N
+    rest = n - a - b                           # samples joining at the top node (may be 0)
+    k = int(rng.integers(1, 4))                # unary-only nodes
+    L = float(rng.choice([10.0, 1000.0, 1e5]))
+    x = float(np.floor(L * rng.uniform(0.2, 0.8)))
+    scale = float(10 ** rng.uniform(0, 3))
+    t = tskit.TableCollection(L)
+    for _ in range(n):
+        t.nodes.add_row(flags=tskit.NODE_IS_SAMPLE, time=0.0)
+    A = t.nodes.add_row(time=1.0 * scale)
+    U = [t.nodes.add_row(time=(1.0 + 0.5 * (j + 1)) * scale) for j in range(k)]
+    N = t.nodes.add_row(time=(1.5 + 0.5 * k) * scale)
+    top = t.nodes.add_row(time=(3.0 + 0.5 * k) * scale) if rest else None
+    chain_left = bool(rng.integers(2))
+    lo, hi = (0.0, x) if chain_left else (x, L)          # where the chain lives
+    lo2, hi2 = (x, L) if chain_left else (0.0, x)        # where N coalesces
+    for s in range(n):
+        if s < a:
+            t.edges.add_row(0.0, L, A, s)
+        else:
+            t.edges.add_row(lo, hi, A, s)
+    prev = A
+    for u in U + [N]:
+        t.edges.add_row(lo, hi, u, prev)
+        prev = u
+    t.edges.add_row(lo2, hi2, N, A)
+    for s in range(a, a + b):
+        t.edges.add_row(lo2, hi2, N, s)
+    if rest:
+        t.edges.add_row(lo2, hi2, top, N)
+        for s in range(a + b, n):
+            t.edges.add_row(lo2, hi2, top, s)
+    t.sort()
+    t.build_index()
+    ts = t.tree_sequence()
+    area = ts.segregating_sites(mode="branch", span_normalise=False)
+    mu = float(rng.choice([5.0, 30.0])) / max(area, 1e-300)
+    mts = msprime.sim_mutations(ts, rate=mu, random_seed=_seed(rng), discrete_genome=False)
+    return mts, dict(gen="unary_chain", n=n, L=L, Ne=scale, mu=mu, chain=k, trees=mts.num_trees, muts=mts.num_mutations)
